@@ -422,6 +422,13 @@ func (in *Interp) reportViolation(id, note string, neg *sym.Term) {
 	}
 	in.S.Pop()
 	in.Res.Queries++
+	if r == sym.Unknown {
+		extra := neg
+		if extra == nil {
+			extra = in.F.True
+		}
+		r, m = in.fallbackCheck(extra)
+	}
 	if r == sym.Unsat {
 		// the path itself is infeasible (it was kept after an unknown feasibility answer)
 		panic(pathEnd{kind: "infeasible", msg: ""})
@@ -429,6 +436,10 @@ func (in *Interp) reportViolation(id, note string, neg *sym.Term) {
 	if r == sym.Unknown {
 		panic(pathEnd{kind: "unknown", msg: "solver unknown when asked for a model of a violation of " + id + " (" + note + ")"})
 	}
+	in.recordViolation(id, note, m)
+}
+
+func (in *Interp) recordViolation(id, note string, m map[string]*big.Int) {
 	v := Violation{ID: id, Harness: in.Ex.HarnessID, Model: in.exportModel(m), Note: note, Trace: traceString(in.trace)}
 	if m != nil && len(in.observed) > 0 {
 		v.Facts = map[string]string{}
